@@ -4,4 +4,4 @@ CONSTANTS
   Dev = {"ShutdownPerStop2"}
 SPECIFICATION Spec
 CHECK_DEADLOCK FALSE
-INVARIANT NoPrematureExit
+INVARIANT SingleShutdown
